@@ -103,21 +103,23 @@ func Verif_C17_ZAdd() {
 	n := []int{-3, 0, 2}[vr.Choose("score", 3)] // stored scores are arbitrary doubles: every order relation occurs
 	score := float64(n)
 	m := vr.Tok("m")
+	// option words are case-insensitive: upper, lower and mixed spellings
+	sp := vr.Choose("spelling", 3)
 	argv := []string{"ZADD", k}
 	if policy == 1 {
-		argv = append(argv, "NX")
+		argv = append(argv, []string{"NX", "nx", "Nx"}[sp])
 	}
 	if policy == 2 {
-		argv = append(argv, "XX")
+		argv = append(argv, []string{"XX", "xx", "xX"}[sp])
 	}
 	if comp == 1 {
-		argv = append(argv, "GT")
+		argv = append(argv, []string{"GT", "gt", "Gt"}[sp])
 	}
 	if comp == 2 {
-		argv = append(argv, "LT")
+		argv = append(argv, []string{"LT", "lt", "lT"}[sp])
 	}
 	if ch {
-		argv = append(argv, "CH")
+		argv = append(argv, []string{"CH", "ch", "cH"}[sp])
 	}
 	argv = append(argv, strconv.Itoa(n), m)
 	reply, err, panicked := verifRun(s, argv...)
